@@ -53,15 +53,16 @@ func (n *stNode) digest() string {
 }
 
 type stWorker struct {
-	w      *XWorld
-	p      *env.Provider
-	tab    Table
-	root   *stNode
-	stats  *engine.Stats
-	rootVs []V
-	cons   []string
-	kA, kB env.ConsKey
-	sent   map[string]int
+	w       *XWorld
+	p       *env.Provider
+	tab     Table
+	root    *stNode
+	stats   *engine.Stats
+	rootVs  []V
+	cons    []string
+	kA, kB  env.ConsKey
+	sent    map[string]int
+	variant string
 }
 
 func (c Stop) NewWorker(stats *engine.Stats) (engine.Worker, error) {
@@ -70,7 +71,7 @@ func (c Stop) NewWorker(stats *engine.Stats) (engine.Worker, error) {
 		return nil, err
 	}
 	xw := &XWorld{P: p, CA: env.NewConsumerApp(), Stats: stats, Delay: 1}
-	w := &stWorker{w: xw, p: p, stats: stats, cons: []string{"0", "1"}, kA: env.NewConsKey("st-a"), kB: env.NewConsKey("st-b")}
+	w := &stWorker{variant: c.Variant, w: xw, p: p, stats: stats, cons: []string{"0", "1"}, kA: env.NewConsKey("st-a"), kB: env.NewConsKey("st-b")}
 	st := p.Root.Branch()
 	A := p.Users[0].Addr.String()
 	must := func(s *env.State, m sdk.Msg) error {
@@ -107,6 +108,9 @@ func (c Stop) NewWorker(stats *engine.Stats) (engine.Worker, error) {
 		if _, err := xw.Boot(n.XNode, cid); err != nil {
 			return nil, fmt.Errorf("boot %s: %w", cid, err)
 		}
+		if c.Variant == "latechan" && cid == "0" {
+			continue // consumer 0's CCV channel is only opened by the open(c0) event: its updates queue up
+		}
 		if err := xw.Open(n.XNode, cid); err != nil {
 			return nil, fmt.Errorf("open %s: %w", cid, err)
 		}
@@ -134,6 +138,12 @@ func (c Stop) NewWorker(stats *engine.Stats) (engine.Worker, error) {
 		n.touchP()
 	}
 	for _, cid := range w.cons {
+		if c.Variant == "latechan" && cid == "0" {
+			if q := p.K.GetPendingVSCPackets(n.P.Ctx, cid); len(q) < 2 {
+				return nil, fmt.Errorf("fixture: consumer 0 has %d queued packets", len(q))
+			}
+			continue
+		}
 		if len(n.L[cid].P2C.Packets) < 2 {
 			return nil, fmt.Errorf("fixture: consumer %s has %d packets in flight", cid, len(n.L[cid].P2C.Packets))
 		}
@@ -232,8 +242,11 @@ func (w *stWorker) nSent(c *stNode, cid string) int {
 	// packets captured on the channel so far = still queued + already timed-out/acked; use the
 	// provider's own next send sequence
 	l := c.L[cid]
-	seq, _ := w.p.PApp.IBCKeeper.ChannelKeeper.GetNextSequenceSend(c.P.Ctx, ccv.ProviderPortID, l.PChan)
-	return int(seq)
+	seq, ok := w.p.PApp.IBCKeeper.ChannelKeeper.GetNextSequenceSend(c.P.Ctx, ccv.ProviderPortID, l.PChan)
+	if !ok {
+		return 0 // no channel yet
+	}
+	return int(seq) - 1
 }
 
 // leftovers: after deletion only descriptive records may remain.
@@ -348,6 +361,22 @@ func (w *stWorker) build() {
 			}
 			l.P2C.Packets = l.P2C.Packets[1:]
 			c.P, c.L[cid] = pp, l
+			return true, nil
+		})
+	}
+	if w.variant == "latechan" {
+		w.ev("open(c0)", func(c *stNode) (bool, []V) {
+			// a relayer completes the CCV handshake for consumer 0 (possibly after it was stopped)
+			if c.L["0"].PChan != "" {
+				return false, nil
+			}
+			if err := w.w.Open(c.XNode, "0"); err != nil {
+				return false, nil
+			}
+			w.stats.Count("channel-opened-late")
+			if _, stopped := c.Stops["0"]; stopped {
+				w.stats.Count("channel-opened-after-stop")
+			}
 			return true, nil
 		})
 	}
